@@ -196,6 +196,19 @@ func (c *cClient) learn(w *world, op *opSpec, res *nfsv4.Compound4res, inf *infl
 	main := res.Resarray[mi]
 	st := resStatus(main)
 	normal := op.Note == "" && op.Retx == 0
+	// A reply to a request that was first sent before the state ID's
+	// seqid was placed next to its wrap-around (preset.go) is, for the
+	// client the simulator stands for, 2^32 operations old: it does not
+	// take the state ID from it (the serial comparison below would call
+	// the ancient seqid the newer one).
+	origN := op.N
+	if op.Retx != 0 {
+		origN = op.Retx
+	}
+	current := func(other string) bool {
+		at, was := w.presetAt[other]
+		return !was || origN > at
+	}
 	if o := c.owner(op.Owner); o != nil && (op.Kind == kOpen || op.Kind == kOpenConfirm || op.Kind == kOpenDowngrade || op.Kind == kClose || (op.Kind == kLock && op.NewLO)) {
 		if seqidAdvances(st) {
 			o.seq = op.Seq
@@ -239,7 +252,7 @@ func (c *cClient) learn(w *world, op *opSpec, res *nfsv4.Compound4res, inf *infl
 		s := sidFromWire(r.Resok4.Stateid)
 		unconf := r.Resok4.Rflags&nfsv4.OPEN4_RESULT_CONFIRM != 0
 		if _, co := c.findOpen(s.Other); co != nil {
-			if int32(s.Seq-co.sid.Seq) > 0 {
+			if int32(s.Seq-co.sid.Seq) > 0 && current(s.Other) {
 				co.sid = s
 				co.access |= op.Access
 			}
@@ -259,7 +272,7 @@ func (c *cClient) learn(w *world, op *opSpec, res *nfsv4.Compound4res, inf *infl
 	case kOpenConfirm:
 		if r, isOK := main.(*nfsv4.NfsResop4_OP_OPEN_CONFIRM).OpopenConfirm.(*nfsv4.OpenConfirm4res_NFS4_OK); isOK {
 			s := sidFromWire(r.Resok4.OpenStateid)
-			if o, co := c.findOpen(s.Other); co != nil {
+			if o, co := c.findOpen(s.Other); co != nil && current(s.Other) {
 				co.sid = s
 				for _, x := range o.opens {
 					x.unconf = false
@@ -271,7 +284,7 @@ func (c *cClient) learn(w *world, op *opSpec, res *nfsv4.Compound4res, inf *infl
 	case kOpenDowngrade:
 		if r, isOK := main.(*nfsv4.NfsResop4_OP_OPEN_DOWNGRADE).OpopenDowngrade.(*nfsv4.OpenDowngrade4res_NFS4_OK); isOK {
 			s := sidFromWire(r.Resok4.OpenStateid)
-			if _, co := c.findOpen(s.Other); co != nil && int32(s.Seq-co.sid.Seq) > 0 {
+			if _, co := c.findOpen(s.Other); co != nil && int32(s.Seq-co.sid.Seq) > 0 && current(s.Other) {
 				co.sid = s
 				co.access = op.Access
 			}
@@ -289,14 +302,14 @@ func (c *cClient) learn(w *world, op *opSpec, res *nfsv4.Compound4res, inf *infl
 			s := sidFromWire(r.Resok4.LockStateid)
 			if op.NewLO {
 				if _, co := c.findOpen(op.Stateid.Other); co != nil {
-					if old, have := co.locks[op.LockOwner]; !have || int32(s.Seq-old.Seq) > 0 || old.Other != s.Other {
+					if old, have := co.locks[op.LockOwner]; !have || old.Other != s.Other || (int32(s.Seq-old.Seq) > 0 && current(s.Other)) {
 						co.locks[op.LockOwner] = s
 					}
 				}
 			} else {
 				for _, co := range c.allOpens() {
 					for k, old := range co.locks {
-						if old.Other == s.Other && int32(s.Seq-old.Seq) > 0 {
+						if old.Other == s.Other && int32(s.Seq-old.Seq) > 0 && current(s.Other) {
 							co.locks[k] = s
 						}
 					}
@@ -312,7 +325,7 @@ func (c *cClient) learn(w *world, op *opSpec, res *nfsv4.Compound4res, inf *infl
 			s := sidFromWire(r.LockStateid)
 			for _, co := range c.allOpens() {
 				for k, old := range co.locks {
-					if old.Other == s.Other && int32(s.Seq-old.Seq) > 0 {
+					if old.Other == s.Other && int32(s.Seq-old.Seq) > 0 && current(s.Other) {
 						co.locks[k] = s
 					}
 				}
@@ -446,7 +459,10 @@ func (w *world) step() {
 			}
 		}
 		if len(parked) > 0 {
-			w.release(pick(w, "which", parked))
+			fl := pick(w, "which", parked)
+			wrapsBefore := w.wraps()
+			w.release(fl)
+			w.retxIfWrapped(fl.client, fl.op, wrapsBefore)
 			return
 		}
 		act = kOpen
@@ -464,6 +480,11 @@ func (w *world) step() {
 			return
 		}
 		act = kOpen
+	case kPreset:
+		if w.presetAction() {
+			return
+		}
+		act = kOpen
 	}
 	var live []*cClient
 	for _, c := range w.clients {
@@ -476,6 +497,25 @@ func (w *world) step() {
 		return
 	}
 	c := pick(w, "client", live)
+	if len(w.presetAt) > 0 {
+		// State IDs next to their wrap-around: mostly go on with a client
+		// that has one, and with a request that advances it or is checked
+		// against it (the pickers below prefer those state IDs).
+		var hot []*cClient
+		for _, x := range live {
+			if w.hotClient(x) {
+				hot = append(hot, x)
+			}
+		}
+		if len(hot) > 0 && w.pct(60, "goOnNearTheWrap") {
+			c = pick(w, "hotClient", hot)
+			switch act {
+			case kOpen, kOpenDowngrade, kClose, kLock, kLocku, kRead, kWrite, kSetattr, "retx", "retx_diff_op", "retx_diff_sid":
+			default:
+				act = pick(w, "hotAction", hotActions)
+			}
+		}
+	}
 	for attempt := 0; attempt < 4; attempt++ {
 		op := w.genOp(c, act)
 		if op == nil {
@@ -504,9 +544,11 @@ func (w *world) step() {
 			op.Park = ""
 		}
 		w.noteSent(c, op)
+		wrapsBefore := w.wraps()
 		w.issue(c, op)
 		w.followUp(c, op)
 		w.duplicateParked(c, op)
+		w.retxIfWrapped(c, op, wrapsBefore)
 		return
 	}
 }
@@ -773,6 +815,26 @@ func (w *world) genOp(c *cClient, kind string) *opSpec {
 		default:
 			o = pick(w, "owner", free)
 		}
+		var nearOpens []*cOpen
+		if w.forceOwner == nil && len(w.presetAt) > 0 {
+			var nearOwners []*cOwner
+			for _, x := range free {
+				for _, co := range x.opens {
+					if w.hot(co.sid) {
+						nearOwners = append(nearOwners, x)
+						break
+					}
+				}
+			}
+			if len(nearOwners) > 0 && w.pct(70, "ownerNearTheWrap") {
+				o = pick(w, "owner", nearOwners)
+				for _, co := range o.opens {
+					if w.hot(co.sid) {
+						nearOpens = append(nearOpens, co)
+					}
+				}
+			}
+		}
 		op := &opSpec{Kind: kOpen, ClientID: c.useCID(), FH: "root", Owner: o.key, Seq: o.nxt()}
 		// rapid's integers lean towards small values; rotating by the
 		// step number spreads the opens over the files (a lock-owner or
@@ -784,9 +846,13 @@ func (w *world) genOp(c *cClient, kind string) *opSpec {
 			for _, other := range c.allOpens() {
 				op.Name, op.How = other.name, "unchecked"
 			}
-		} else if len(o.opens) > 0 && w.pct(45, "reopen") {
+		} else if len(nearOpens) > 0 || len(o.opens) > 0 && w.pct(45, "reopen") {
 			// Open a file this owner already has open: upgrade.
-			co := pick(w, "reopen", o.opens)
+			cands := o.opens
+			if len(nearOpens) > 0 {
+				cands = nearOpens
+			}
+			co := pick(w, "reopen", cands)
 			op.Name = co.name
 			op.How = pick(w, "how", []string{"nocreate", "unchecked", "unchecked_trunc"})
 			if co.access != 3 && w.pct(70, "upgrade") {
@@ -960,7 +1026,7 @@ func (w *world) pickOpen(c *cClient, wantUnconf bool) (*cOwner, *cOpen) {
 		o  *cOwner
 		co *cOpen
 	}
-	var l, pref []pair
+	var l, pref, near []pair
 	for _, o := range c.owners {
 		if o.busy > 0 {
 			continue
@@ -970,7 +1036,14 @@ func (w *world) pickOpen(c *cClient, wantUnconf bool) (*cOwner, *cOpen) {
 			if co.unconf == wantUnconf {
 				pref = append(pref, pair{o, co})
 			}
+			if !wantUnconf && w.hot(co.sid) {
+				near = append(near, pair{o, co})
+			}
 		}
+	}
+	if len(near) > 0 && w.pct(75, "preferNearTheWrap") {
+		p := pick(w, "open", near)
+		return p.o, p.co
 	}
 	if len(pref) > 0 && w.pct(90, "preferFitting") {
 		p := pick(w, "open", pref)
@@ -988,16 +1061,22 @@ func (w *world) pickLock(c *cClient) (*cOpen, string) {
 		co *cOpen
 		k  string
 	}
-	var l []pair
+	var l, near []pair
 	for _, co := range c.allOpens() {
 		for _, lo := range c.lockOwner {
-			if _, have := co.locks[lo.key]; have {
+			if s, have := co.locks[lo.key]; have {
 				l = append(l, pair{co, lo.key})
+				if w.hot(s) {
+					near = append(near, pair{co, lo.key})
+				}
 			}
 		}
 	}
 	if len(l) == 0 {
 		return nil, ""
+	}
+	if len(near) > 0 && w.pct(75, "preferNearTheWrap") {
+		l = near
 	}
 	p := pick(w, "lock", l)
 	return p.co, p.k
@@ -1103,10 +1182,22 @@ func (w *world) devStateOp(c *cClient, op *opSpec, fh string, seqField *uint32, 
 	}
 	switch d := pick(w, "stateDev", opts); d {
 	case "sid_old":
-		op.Stateid.Seq--
+		if s := op.Stateid.Seq; w.hot(op.Stateid) {
+			// Next to the wrap-around: the plain predecessor (0 for 1),
+			// the one nextSeqID implies (2^32-1 for 1), or older ones.
+			op.Stateid.Seq = pick(w, "oldSeqid", []uint32{s - 1, prevSeq(s), prevSeq(prevSeq(s)), prevSeq(prevSeq(prevSeq(s)))})
+			w.label("old_stateid_near_the_wrap")
+		} else {
+			op.Stateid.Seq--
+		}
 		op.Note = d
 	case "sid_future":
-		op.Stateid.Seq++
+		if s := op.Stateid.Seq; w.hot(op.Stateid) {
+			op.Stateid.Seq = pick(w, "futureSeqid", []uint32{s + 1, nextSeq(s), nextSeq(nextSeq(s)), nextSeq(nextSeq(nextSeq(s)))})
+			w.label("future_stateid_near_the_wrap")
+		} else {
+			op.Stateid.Seq++
+		}
 		op.Note = d
 	case "sid_wrong_prefix":
 		op.Stateid.Other = "deadbeef" + op.Stateid.Other[8:]
